@@ -158,7 +158,10 @@ macro "action_inv" h:ident "," fx:term "," arg:term "," lem:term : tactic => `(t
     | (simp at $h:ident; done)
     | (cases hx : stringToInt $fx (Option.getD $arg []) <;> simp [hx, Option.elim] at $h:ident <;> done)
     | (cases hx : timeoutArg $fx (Option.getD $arg []) <;> simp [hx, Option.elim] at $h:ident <;> done)
-    | (split at $h:ident <;> simp at $h:ident <;> done)))
+    | (split at $h:ident <;> simp at $h:ident <;> done)
+    | (cases hx : wcollArg $fx ‹Defaults› (Option.getD $arg []) with
+       | none => simp [hx, Option.elim] at $h:ident
+       | some b => cases b <;> simp [hx, Option.elim] at $h:ident)))
 
 theorem action_fanout_inv {fx : Fixes} {d : Defaults} {t : Tok} {v : Int} (h : action fx d t = .fanout v) :
     ∃ arg, t = .opt 'f' arg := by
@@ -610,14 +613,14 @@ theorem postArgs_ok {d : Defaults} {c c' : Cfg} (h : postArgs d c = .ok c') :
 theorem effective_ok_inv {fx : Fixes} {d : Defaults} {p : Pers} {env : Env} {argv : List Str} {c : Cfg}
     (h : effective fx d p env argv = .ok c) :
     ∃ c1 c3, optEnv fx p env (optDefault d) = .ok c1 ∧
-      applyToks fx d p (optArgsEarly c1 (getopt (optstring p) argv).1) (getopt (optstring p) argv).1 = .ok c3 ∧
-      postArgs d c3 = .ok c ∧ optVerify fx d p c (getopt (optstring p) argv).2.length = true := by
+      applyToks fx d p (optArgsEarly c1 (getopt (earlyString fx d p) argv).1) (getopt (fullString d p) argv).1 = .ok c3 ∧
+      postArgs d c3 = .ok c ∧ optVerify fx d p c (getopt (fullString d p) argv).2.length = true := by
   unfold effective at h
   cases h1 : optEnv fx p env (optDefault d) with
   | error n => simp [h1] at h
   | ok c1 =>
     simp only [h1] at h
-    cases h2 : applyToks fx d p (optArgsEarly c1 (getopt (optstring p) argv).1) (getopt (optstring p) argv).1 with
+    cases h2 : applyToks fx d p (optArgsEarly c1 (getopt (earlyString fx d p) argv).1) (getopt (fullString d p) argv).1 with
     | error n => simp [h2] at h
     | ok c3 =>
       simp only [h2] at h
